@@ -1490,6 +1490,18 @@ class TLSConnection(TLSRecordLayer):
                 delegated_credential = cert_ext.delegated_credential
                 publicKey = delegated_credential.cred.pub_key
                 signature_scheme = delegated_credential.cred.dc_cert_verify_algorithm
+            else:
+                # RFC 8446 4.4.3: the algorithm MUST be one of those offered
+                # in the client's "signature_algorithms" extension
+                offered_ext = clientHello.getExtension(
+                    ExtensionType.signature_algorithms)
+                if offered_ext is None or not offered_ext.sigalgs or \
+                        signature_scheme not in offered_ext.sigalgs:
+                    for result in self._sendError(
+                            AlertDescription.illegal_parameter,
+                            "Server selected signature algorithm we did "
+                            "not advertise"):
+                        yield result
 
             if signature_scheme in (SignatureScheme.ed25519,
                                     SignatureScheme.ed448,
